@@ -52,6 +52,7 @@ type monitor struct {
 	// could know about the success. A success that vanished unobserved is a lost
 	// (unsuccessful) attempt, as the API documents.
 	observed map[string]bool
+	foreign  map[string]string // planted Pod key -> name of the Job whose task name it occupies
 }
 
 // beforeJobSync is called before every job-controller step with the key that
@@ -81,7 +82,7 @@ type podCreate struct {
 
 func newMonitor(r *e2run) *monitor {
 	return &monitor{r: r, labels: map[string]bool{}, userEdited: map[string]bool{}, podCreates: map[string][]podCreate{},
-		everTasks: map[string]map[string]bool{}, rejectedJobs: map[string]bool{}, jobCtlWrote: map[string]bool{}, startedAt: map[string]time.Time{}, observed: map[string]bool{}}
+		everTasks: map[string]map[string]bool{}, rejectedJobs: map[string]bool{}, jobCtlWrote: map[string]bool{}, startedAt: map[string]time.Time{}, observed: map[string]bool{}, foreign: map[string]string{}}
 }
 
 func (m *monitor) on(p string) bool { return m.props == nil || m.props[p] }
@@ -576,17 +577,24 @@ func (m *monitor) onPodEntry(e *sim.Entry) {
 		if len(indexHashes(job)) >= 2 {
 			m.label("parallel-job")
 		}
-		// (2) retry numbers 0,1,2,... without gaps, fewer than maxAttempts
-		if retry != len(prev) {
-			m.fail("C08", "retry-gap", "Pod %s created with retry %d, but %d task(s) were created before for this index", p.Name, retry, len(prev))
-		}
-		for _, pc := range prev {
-			if pc.retry == retry {
-				m.fail("C09", "duplicate-attempt", "a second Pod was created for Job %s index %s retry %d", job.Name, hash, retry)
+		// (2) retry numbers 0,1,2,... without gaps, fewer than maxAttempts. Attempts are
+		// counted as the Job recorded them: a Pod that was created but vanished before
+		// it could be recorded or adopted (crash + external deletion) leaves no trace,
+		// and re-creating that attempt is what the statement asks for.
+		recorded := 0
+		for n := range m.everTasks[jobUID] {
+			if strings.HasPrefix(n, job.Name+"-"+hash+"-") {
+				recorded++
 			}
 		}
-		if int64(len(prev)) >= job.GetMaxAttempts() {
-			m.fail("C08", "over-maxAttempts", "Pod %s is attempt %d of an index whose maxAttempts is %d", p.Name, len(prev)+1, job.GetMaxAttempts())
+		if retry != recorded {
+			m.fail("C08", "retry-gap", "Pod %s created with retry %d, but the Job has recorded %d task(s) for this index", p.Name, retry, recorded)
+		}
+		if m.everTasks[jobUID][p.Name] {
+			m.fail("C09", "duplicate-attempt", "Pod %s was created a second time although the Job had already recorded this attempt", p.Name)
+		}
+		if int64(recorded) >= job.GetMaxAttempts() {
+			m.fail("C08", "over-maxAttempts", "Pod %s is attempt %d of an index whose maxAttempts is %d", p.Name, recorded+1, job.GetMaxAttempts())
 		}
 		// (1) at most one task that is neither finished nor gone; (3) retry delay; (4) nothing after success
 		truths := m.r.w.Truths()
@@ -885,6 +893,8 @@ func (m *monitor) drive(rounds int, step time.Duration) bool {
 
 func (m *monitor) finale() {
 	w := m.r.w
+	w.API.Crash = nil // an armed crash that never fired is dropped: the finale is fault-free
+	w.API.Faults = nil
 	if !w.Alive {
 		w.Kill()
 		if err := w.StartProcess(); err != nil {
@@ -1062,6 +1072,20 @@ func (m *monitor) quiescentChecks() {
 	}
 	if m.deadlineCrossed {
 		m.label("deadline-crossed")
+	}
+	// C09: a foreign object on a task's name is never adopted and does not leave the Job retrying forever
+	for pk, jobName := range m.foreign {
+		if w.API.Get(sim.ResPods, pk) == nil {
+			continue
+		}
+		for _, j := range jobs {
+			if j.Name != jobName || j.DeletionTimestamp != nil || !isStarted(j) {
+				continue
+			}
+			if !j.Status.Phase.IsTerminal() {
+				m.fail("C09", "foreign-pod-job-stuck", "Job %s needs task name %s, which is occupied by a Pod it does not control, and is still %s at quiescence instead of ending in AdmissionError", j.Name, pk, j.Status.Phase)
+			}
+		}
 	}
 }
 
